@@ -120,6 +120,36 @@ def text_jobs(ctx, quick, names, texts, rng):
     return jobs
 
 
+def tokseq_jobs(ctx, quick, tokpairs, rng):
+    """several names through ONE tokenizer / several from_text calls in one process, with origins and
+    relativize_to that differ only in letter case, and the same text under different origins"""
+    jobs = []
+    calls = {}
+    for c1, c2 in tokpairs:
+        jobs.append(("q%d" % len(jobs), "tokseq", [c1, c2]))
+        for c in (c1, c2):
+            calls[json.dumps(c)] = c
+    calls = list(calls.values())
+    norig = sorted({json.dumps(c[1]) for c in calls})
+    for tx in sorted({json.dumps(c[0]) for c in calls}):
+        os_ = [json.loads(o) for o in norig]
+        jobs.append(("q%d" % len(jobs), "ptext", (json.loads(tx), os_ + os_[::-1])))
+    n0 = len(jobs)
+    for _ in range(1500 if quick else 20000):
+        k = rng.randint(3, 7)
+        base = rng.choice(calls)
+        seq = []
+        for _ in range(k):
+            c = rng.choice(calls) if rng.random() < 0.6 else base
+            if rng.random() < 0.5:
+                c = [[(x ^ 0x20) if (65 <= x <= 90 or 97 <= x <= 122) and rng.random() < 0.5 else x for x in c[0]]] + c[1:]
+            seq.append(c)
+        jobs.append(("q%d" % len(jobs), "tokseq", seq))
+    ctx.extra.setdefault("universe", {}).update({"tokenizer_call_pairs": len(tokpairs), "tokenizer_calls": len(calls)})
+    ctx.extra["random_tokenizer_sequences"] = len(jobs) - n0
+    return jobs
+
+
 def rnd_message(rng):
     """a plausible compressed message fragment: names sharing suffixes, then corrupted"""
     import io
@@ -345,7 +375,8 @@ def run(ctx):
     quick = ctx.tier == "quick"
     ctx.rule = ("universes emitted by TLC from specs/NameUniverse.tla: NamesA (names over 16 octet classes) + CtlNames (hostname-style "
                 "labels with a control octet last / first / inside) -> to_text / "
-                "from_text / Tokenizer.get_name under 3 origins; Texts (all texts over the escape alphabet) -> from_text, "
+                "from_text / Tokenizer.get_name under 3 origins; Texts (all texts over the escape alphabet) -> from_text, get_name; TokPairs (ordered pairs of get_name / as_name calls "
+                "in ONE tokenizer whose texts, origins, relativize_to differ only in letter case) -> "
                 "get_name; PlainCases (all byte strings over 11 byte classes x every start offset) and SegCases (segment "
                 "level, 255/256 octets, 0x3FFF) -> recorded decoding; WNames -> all pairs / triples of compressed writes, "
                 "bases around 0x3FFF; LenRel x LenOrg -> to_wire(None) / to_digestable / to_wire(file) of relative name + origin "
@@ -384,10 +415,11 @@ def _run(ctx, quick, mc):
         # multi-worker requests when many checks run at once); they overlap with the validation
         if not os.environ.get("VERIF_C01_SKIP_MC"):      # (development aid: validation without the model runs)
             mc += _models(ctx, ex, tier)
-        gens = {k: ex.submit(gen, ctx, k, quick) for k in ("namesA", "texts", "wires", "segs", "wnames", "cons", "neigh", "len", "ctl", "strnames")}
+        gens = {k: ex.submit(gen, ctx, k, quick) for k in ("namesA", "texts", "wires", "segs", "wnames", "cons", "neigh", "len", "ctl", "strnames", "tokpairs")}
         g = {k: f.result() for k, f in gens.items()}
         rng = random.Random(2000 + ctx.seed)
         jobs = text_jobs(ctx, quick, g["namesA"] + g["ctl"], g["texts"], rng)
+        jobs += tokseq_jobs(ctx, quick, g["tokpairs"], rng)
         jobs += wire_jobs(ctx, quick, g["wires"], g["segs"], g["wnames"], rng)
         jobs += length_jobs(ctx, g["len"])
         jobs += cons_jobs(ctx, quick, g["cons"], g["neigh"], rng, g["strnames"])
